@@ -250,7 +250,15 @@ func runFrames(raw json.RawMessage, seed int64, rec *Rec) {
 
 	if s.Side == "client" {
 		trailer := http.Header{}
+		// tails "ctxc" / "ctxd": the call's context ends (cancel() / deadline) at this point of the response and the
+		// transport's body read fails with the context's error, as net/http's do (C15 "while receiving")
+		mctx := &manualCtx{Context: context.Background(), done: make(chan struct{}), deadline: s.Tail == "ctxd"}
 		body.onEOF = func() {
+			if s.Tail == "ctxc" {
+				mctx.end("canceled")
+			} else if s.Tail == "ctxd" {
+				mctx.end("expired")
+			}
 			if s.Tail != "eof" {
 				return
 			}
@@ -279,13 +287,13 @@ func runFrames(raw json.RawMessage, seed int64, rec *Rec) {
 		client := connect.NewClient[BV, BV](fake, "http://verif.test/verif.v1.Svc/Method", opts...)
 		out := []int{}
 		if unary {
-			res, err := client.CallUnary(bg(), connect.NewRequest(&BV{Value: []byte{1}}))
+			res, err := client.CallUnary(mctx, connect.NewRequest(&BV{Value: []byte{1}}))
 			if err == nil {
 				out = append(out, table.ID(res.Msg.Value))
 			}
 			rec.Add(E("done", "ok", err == nil, "code", codeOf(err), "out", out, "alloc_kb", allocKB()))
 		} else {
-			stream, err := client.CallServerStream(bg(), connect.NewRequest(&BV{Value: []byte{1}}))
+			stream, err := client.CallServerStream(mctx, connect.NewRequest(&BV{Value: []byte{1}}))
 			if err != nil {
 				rec.Add(E("done", "ok", false, "code", codeOf(err), "out", out, "at", "call"))
 				return
